@@ -103,7 +103,13 @@ func check(prop, tier string) int {
 	replayDir := filepath.Join(verifRoot, "replays", prop)
 	os.MkdirAll(replayDir, 0o755)
 	smtDir, _ := os.MkdirTemp("", "govc-smt-")
-	defer os.RemoveAll(smtDir)
+	if d := os.Getenv("GOVC_SMTDIR"); d != "" {
+		// development aid: keep the generated SMT files
+		os.MkdirAll(d, 0o755)
+		smtDir = d
+	} else {
+		defer os.RemoveAll(smtDir)
+	}
 
 	violations := 0
 	var curReplay *ReplaySpec
